@@ -83,6 +83,17 @@ func init() {
 		"{switch"+rep(" {0} {1}", 400)+"}",
 		"{format "+rep("%s", 500)+rep(" {0}", 500)+"}",
 	)
+	// escape look-ahead: a backslash followed by every kind of character and
+	// 0-2 more characters, at the very end of a template, in front of a
+	// closing brace, and at the end of an argument that is compiled again
+	// (where another unescaping pass sees the tail). A scanner that peeks
+	// ahead after the backslash (\xNN, \uNNNN ..) must not read past the end.
+	for _, c := range []string{"x", "X", "u", "U", "0", "1", "7", "n", "t", "r", "e", "a", "f", "4", "{", "}", "\"", "\\", " "} {
+		for _, tail := range []string{"", "4", "f", "41", "g", "{", "}", "00", "123"} {
+			e := "\\" + c + tail
+			seedTemplates = append(seedTemplates, "ab"+e, "{0}"+e, "{tab a"+e+"}", "{tab a\\\\"+e+" b}", "{tab \"q"+e+"\" b}")
+		}
+	}
 }
 
 // fixedContexts are evaluated against every seed template.
